@@ -3,6 +3,7 @@
    load_in_cache (compare THEN fill, sticky empty cache on failure), tag_position_to_no_tag_position,
    the compression writer's roll-over test and sizes, the fail-safe decompressor's guards and
    result arms, the config builders and the one-line wrappers (Builders.v). *)
+From MLA Require Import Limit.
 From MLA Require Import Base Stream EncLayer CompLayer CompFailSafe Blocks Builders.
 From MLAGen Require Src Src2.
 From Coq Require Import String ZifyBool ZifyNat ZifyN.
@@ -26,6 +27,7 @@ Qed.
 
 (* ---------- encryption layer ---------- *)
 Section Enc.
+  Context {LIM : Limit}.
   Variables CHUNK TAG CIPHERBUF : N.
   Variable ks : N -> N -> N.
   Variable tagc : N -> bytes -> bytes.
@@ -83,6 +85,7 @@ End Enc.
 
 (* ---------- compression writer ---------- *)
 Section Comp.
+  Context {LIM : Limit}.
   Variable BLOCK : N.
   Variable comp : bytes -> bytes.
   Lemma cw_write_src fuel w buf :
@@ -108,6 +111,7 @@ End Comp.
 
 (* ---------- fail-safe decompressor ---------- *)
 Section FsComp.
+  Context {LIM : Limit}.
   Variables BLOCK FSBUF : N.
   Lemma fs_reset_cache_src cache ro :
     reset_cache FSBUF cache ro = if Src2.fs_cache_reset FSBUF ro (len cache) then ([], 0) else (cache, ro).
